@@ -31,6 +31,7 @@ fn main() {
         }
         "probe-dup" => probe::dup(&args),
         "probe-shapes" => probe::shapes(&args),
+        "probe-fsl" => probe::fsl(&args),
         _ => {
             eprintln!("unknown subcommand {sub}");
             2
